@@ -661,6 +661,12 @@ func runC18(rc *fw.RunCtx) {
 		for _, n := range []string{"hcount", "htag", "hlist"} {
 			delete(skip, n)
 		}
+		if threadWrite {
+			// judged through its one mark, apart from everything else: when
+			// the thread's assignment lands relative to the next piece is up to
+			// the schedule, and with it which globals array receives it
+			skip["twv"] = true
+		}
 		return h, cfg, skip
 	}
 	bg := context.Background()
